@@ -260,14 +260,51 @@ func (ex *Exec) nativeCall(key string, callee *ssa.Function, c *ssa.CallCommon, 
 		}
 		vc.assumptions["sort.Slice leaves a permutation of the slice in which less(j,i) is false for all i<j; it writes nothing else"] = true
 		return Val{}, true
+	case "time.AfterFunc":
+		note()
+		// a ghost timer record: due time, function and whether it is still scheduled; the runtime runs the
+		// function of a scheduled timer at some instant >= due (assumed contract of package time)
+		r := ex.newRef("timer")
+		st := ex.curState
+		ex.set(st, "TMRDUE", "(Array Int Int)", sSto(ex.get(st, "TMRDUE", "(Array Int Int)"), r, "(+ "+ex.get(st, "CLK", "Int")+" "+args[0].T+")"))
+		ex.set(st, "TMRFN", "(Array Int Int)", sSto(ex.get(st, "TMRFN", "(Array Int Int)"), r, args[1].T))
+		ex.set(st, "TMRON", "(Array Int Bool)", sSto(ex.get(st, "TMRON", "(Array Int Bool)"), r, "true"))
+		ex.set(st, "TMRN", "Int", "(+ "+ex.get(st, "TMRN", "Int")+" 1)")
+		vc.assumptions["time.AfterFunc(d, f) schedules f to run once, not before d has elapsed; Timer.Stop unschedules it if it has not run yet"] = true
+		return Val{T: r}, true
 	case "time.NewTicker":
 		note()
 		return Val{T: ex.newRef("ticker")}, true
 	case "(*time.Ticker).Stop", "(*time.Timer).Stop":
 		note()
 		if key == "(*time.Timer).Stop" {
+			ex.nilCheck(args[0], pos)
+			st := ex.curState
+			ex.set(st, "TMRON", "(Array Int Bool)", sSto(ex.get(st, "TMRON", "(Array Int Bool)"), args[0].T, "false"))
 			return Val{T: vc.fresh(ex.pfx+"stopped", "Bool")}, true
 		}
+		return Val{}, true
+	case "(*sync.Cond).Broadcast", "(*sync.Cond).Signal":
+		note()
+		return Val{}, true
+	case "(*sync.Cond).Wait":
+		note()
+		// Wait releases c.L, blocks, and re-acquires it: everything the lock guards may have been changed by other
+		// goroutines (down to the lock invariant), and time has passed
+		ex.nilCheck(args[0], pos)
+		mu := ex.condLocker(args[0].T)
+		ex.useHeld()
+		ex.vc.oblige("lock.condwait", "lock", pos, ex.curReach, sEq(sSel(ex.get(ex.curState, "HELD", "(Array Int Int)"), mu), "2"), "sync.Cond.Wait is called with c.L held")
+		ex.curMuOwner = "*"
+		ex.concLeaveSection(mu, pos)
+		st := ex.curState
+		n := vc.fresh(ex.pfx+"now", "Int")
+		vc.assume("(>= " + n + " " + ex.get(st, "CLK", "Int") + ")")
+		ex.set(st, "CLK", "Int", n)
+		ex.noLpCheck = true
+		ex.concEnterSection(mu, pos, false)
+		ex.noLpCheck = false
+		vc.assumptions["sync.Cond.Wait atomically releases c.L, suspends, and re-locks c.L before returning"] = true
 		return Val{}, true
 	case "errors.Join":
 		note()
@@ -351,6 +388,12 @@ func (ex *Exec) invokeCall(v *ssa.Call, c *ssa.CallCommon, pos token.Pos) Val {
 		key = "(" + namedKey(n) + ")." + name
 	} else {
 		key = "(interface)." + name
+	}
+	if key == "(sync.Locker).Lock" || key == "(sync.Locker).Unlock" {
+		ex.vc.externs["sync.Locker (a *sync.Mutex behind the interface: built-in lock model)"] = true
+		ex.curMuOwner = "*"
+		ex.lockOp(recv.T, 2, name == "Lock", pos)
+		return Val{}
 	}
 	if key == "(error).Error" {
 		ex.vc.needStr()
@@ -581,4 +624,23 @@ func (ex *Exec) muOwnerType(v ssa.Value) string {
 		return namedKey(n)
 	}
 	return ""
+}
+
+// condLocker: the lock c.L of a *sync.Cond c.
+func (ex *Exec) condLocker(c string) string {
+	for _, p := range ex.vc.w.Prog.AllPackages() {
+		if p.Pkg.Path() == "sync" {
+			if tn, ok := p.Pkg.Scope().Lookup("Cond").(*types.TypeName); ok {
+				n := tn.Type().(*types.Named)
+				st := n.Underlying().(*types.Struct)
+				for i := 0; i < st.NumFields(); i++ {
+					if st.Field(i).Name() == "L" {
+						k, srt, _ := ex.fieldKey(n, st, i)
+						return sSel(ex.get(ex.curState, k, "(Array Int "+srt+")"), c)
+					}
+				}
+			}
+		}
+	}
+	return "0"
 }
